@@ -549,7 +549,7 @@ func (g *gen) conversation(n int, withLockstep bool) []string {
 		case k < 90: // a sub-packaged message, other messages in between
 			ids := []uint16{0x0801, 0x0200, 0x0704, 0x0800, 0x1212, 0x0102, 0x0100, 0x0001, g.unsupportedID()}
 			f := g.frame(ids[r.Intn(len(ids))])
-			np := 2 + r.Intn(4)
+			np := 1 + r.Intn(5) // 1: a transfer of ONE package (fragment bit set, total 1) is complete with its only packet
 			var whole []byte
 			for p := 1; p <= np; p++ {
 				pf := f
